@@ -1132,9 +1132,12 @@ func c11Run(c *fw.C, caseID string) {
 	for i := 0; i < steps && !w.failed && !w.mon.fatal; i++ {
 		w.step()
 	}
-	// drain: let every outstanding receive, mint and arrival happen
+	// drain: let every outstanding receive, mint and arrival happen (an Update may still fire while draining)
 	w.quiet = 1 << 30
-	for i := 0; i < 8 && !w.failed && !w.mon.fatal; i++ {
+	for i := 0; i < 80 && !w.failed && !w.mon.fatal; i++ {
+		if i >= 8 && len(w.mon.pendingMint) == 0 && len(w.mon.arrivals) == 0 && len(w.P.Chain.GetAllUncommittedAccountBlocks()) == 0 {
+			break
+		}
 		w.step()
 	}
 	if !w.failed && !w.mon.fatal {
